@@ -541,7 +541,6 @@ fn schedules(ctx: &Ctx, thorough: bool) {
         return;
     }
     let bytes = subject().encode();
-    let Loaded::Ok(file) = load(&bytes) else { std::process::exit(2) };
     // baselines: each call on its own freshly loaded sprite (a call that panics there has no baseline
     // and is left to the histories family)
     let base: Vec<u64> = CALLS
@@ -551,7 +550,6 @@ fn schedules(ctx: &Ctx, thorough: bool) {
             _ => std::process::exit(2),
         })
         .collect();
-    let file = Arc::new(file);
     let base = Arc::new(base);
     // configurations: which calls each thread performs
     let sub: Vec<usize> = vec![0, 2, 4, 5, 8, 12];
@@ -597,6 +595,12 @@ fn schedules(ctx: &Ctx, thorough: bool) {
         }
         let count = Arc::new(AtomicU64::new(0));
         let bad: Arc<Mutex<Option<String>>> = Arc::new(Mutex::new(None));
+        // a sprite of its own per configuration: configurations run on parallel OS threads, and sharing one
+        // instance between them would let free-running threads into what is meant to be a controlled schedule
+        let file = match load(&bytes) {
+            Loaded::Ok(f) => Arc::new(f),
+            _ => std::process::exit(2),
+        };
         let (file, base, cfg2, count2, bad2) = (file.clone(), base.clone(), cfg.clone(), count.clone(), bad.clone());
         let r = std::panic::catch_unwind(std::panic::AssertUnwindSafe(|| {
             shuttle::check_dfs(
